@@ -19,16 +19,18 @@
   OBLIGATION c03_mergeable_paths_partial
   OBLIGATION c03_mergeable_paths_example
   OBLIGATION c03_fuelbound_full_refuted
-  OPEN c03_fuelbound_acyclic_full
-  OPEN c03_mergeable_paths_full
+  OBLIGATION c03_fuelbound_suffices
+  OBLIGATION c03_fuelbound_acyclic_full
+  OBLIGATION c03_mergeable_paths_full
 
   `c03_full` (first formulation, no hypotheses) is REFUTED (`c03_full_needs_validity`).  Restated with the
   validity hypotheses as `c03_mergeable_full`: REFUTED too (`c03_mergeable_full_refuted`) — with a repeated
   response key a failing field is reported once per occurrence, each with its own location.  PROVED:
   `c03_mergeable_paths_partial` (repeated keys included: the specification's data, and every reported error
   has the response path of one of the specification's errors) and `c03_partial_nodup` (distinct keys: exact
-  errors).  `c03_fuelbound_full` is REFUTED (`c03_fuelbound_full_refuted`: cyclic fragments); the versions
-  with the drivers' fuel bound on acyclic documents are open.  Fourth deviation of the pinned tree: a
+  errors).  `c03_fuelbound_full` is REFUTED (`c03_fuelbound_full_refuted`: cyclic fragments); with acyclic
+  fragment spreads the drivers' fuel bound suffices (`c03_fuelbound_suffices`), which gives the two full
+  statements `c03_fuelbound_acyclic_full` and `c03_mergeable_paths_full`.  Fourth deviation of the pinned tree: a
   repeated response key whose later occurrence is nulled by a propagating error keeps the earlier partial
   object (`c03_repeated_key_error_witness`, toggle `mergeKeepsPartialOnNull`).
 -/
@@ -217,7 +219,7 @@ def c03_mergeable_full : Prop :=
 open AGV.Lemmas.ExecStaticData in
 /-- `c03_partial_nodup` with `deepEnough` replaced by the drivers' fuel bound.  REFUTED below
     (`c03_fuelbound_full_refuted`): the hypotheses do not exclude fragment cycles through a field, and on
-    those every fuel is exhausted.  Restated with acyclicity: `c03_fuelbound_acyclic_full` (open). -/
+    those every fuel is exhausted.  Restated with acyclicity and proved: `c03_fuelbound_acyclic_full`. -/
 def c03_fuelbound_full : Prop :=
   ∀ (S : Schema) (d : Doc) (opName : Option String) (raw : List (String × GValue)) (w : World),
     ∀ fuel ≥ fuelBound d,
@@ -374,22 +376,37 @@ theorem c03_fuelbound_full_refuted : ¬ c03_fuelbound_full := by
   simp at this
 
 open AGV.Lemmas.ExecStaticData AGV.Lemmas.ExecStaticMerge in
-/-- OPEN: `c03_partial_nodup` with `deepEnough` replaced by the drivers' fuel bound, for documents whose
-    fragment spreads are acyclic (`FragsAcyclic`, validation rule NoFragmentCycles).  Needs: on such
-    documents `deepEnough` holds at every fuel ≥ `fuelBound d` (every path through the expanded document
-    enters a fragment at most once, so it is shorter than the total number of selections). -/
-def c03_fuelbound_acyclic_full : Prop :=
+/-- On a document whose fragment spreads are acyclic (`FragsAcyclic`, validation rule NoFragmentCycles: the
+    fragments can be ranked so that each only spreads fragments of smaller rank) the drivers' fuel bound
+    `fuelBound d` is never exhausted, whatever the schema and the world: every collected occurrence's
+    sub-selections are strictly lighter in "selections below + weight of the fragments still enterable". -/
+theorem c03_fuelbound_suffices (S : Schema) (d : Doc) (op : OpDef) (raw : List (String × GValue)) (w : World)
+    (hac : FragsAcyclic d) (hop : op ∈ d.ops) (fuel : Nat) (hf : fuel ≥ fuelBound d) (st rt : String) :
+    deepEnough (runCtx S d op raw w) fuel st rt op.sels = true :=
+  deepEnough_of_fuelBound (runCtx S d op raw w) hac op hop fuel hf st rt
+
+open AGV.Lemmas.ExecStaticData AGV.Lemmas.ExecStaticMerge in
+/-- `c03_partial_nodup` with `deepEnough` replaced by the drivers' fuel bound, for documents whose
+    fragment spreads are acyclic: distinct response keys — the specification's data and exactly (path and
+    location) a subset of the specification's errors, at every fuel ≥ `fuelBound d`. -/
+theorem c03_fuelbound_acyclic_full :
   ∀ (S : Schema) (d : Doc) (opName : Option String) (raw : List (String × GValue)) (w : World),
     FragsAcyclic d →
     ∀ fuel ≥ fuelBound d,
       (∀ op, selectOp d opName = some op → RunHyps S d op raw w fuel) →
       (Model.ExecStatic.run Defects.none S d opName raw w fuel).val = (AGV.Spec.Exec.run S d opName raw w fuel).val ∧
-      ∀ e ∈ (Model.ExecStatic.run Defects.none S d opName raw w fuel).errs, e ∈ (AGV.Spec.Exec.run S d opName raw w fuel).errs
+      ∀ e ∈ (Model.ExecStatic.run Defects.none S d opName raw w fuel).errs, e ∈ (AGV.Spec.Exec.run S d opName raw w fuel).errs :=
+  fun S d opName raw w hac fuel hf H =>
+    c03_partial_nodup S d opName raw w fuel (fun op hop =>
+      ⟨H op hop, c03_fuelbound_suffices S d op raw w hac (selectOp_mem d opName op hop) fuel hf _ _⟩)
 
 open AGV.Lemmas.ExecStaticData AGV.Lemmas.ExecStaticMerge in
-/-- OPEN: `c03_mergeable_paths_partial` with `deepEnough` replaced by the drivers' fuel bound on documents
-    with acyclic fragment spreads (same missing lemma as `c03_fuelbound_acyclic_full`). -/
-def c03_mergeable_paths_full : Prop :=
+/-- THE FULL STATEMENT AS IT HOLDS: for every schema, document with acyclic fragment spreads, variables,
+    world with arbitrary faults and every fuel ≥ the drivers' bound, under validity (`mergeableKeys`,
+    consistent schema, inert directives, no `Int` leaf for `Float`): the model without defects gives the
+    specification's data, and every error it reports has the response path of one of the
+    specification's errors (repeated response keys: one report per occurrence). -/
+theorem c03_mergeable_paths_full :
   ∀ (S : Schema) (d : Doc) (opName : Option String) (raw : List (String × GValue)) (w : World),
     FragsAcyclic d →
     ∀ fuel ≥ fuelBound d,
@@ -399,6 +416,14 @@ def c03_mergeable_paths_full : Prop :=
         mergeableKeys (runCtx S d op raw w) fuel (rootOf S op) (rootOf S op) op.sels = true) →
       (Model.ExecStatic.run Defects.none S d opName raw w fuel).val = (AGV.Spec.Exec.run S d opName raw w fuel).val ∧
       ∀ e ∈ (Model.ExecStatic.run Defects.none S d opName raw w fuel).errs,
-        ∃ e' ∈ (AGV.Spec.Exec.run S d opName raw w fuel).errs, e'.path = e.path
+        ∃ e' ∈ (AGV.Spec.Exec.run S d opName raw w fuel).errs, e'.path = e.path :=
+  fun S d opName raw w hac fuel hf H =>
+    c03_mergeable_paths_partial S d opName raw w fuel (fun op hop =>
+      ⟨(H op hop).1, (H op hop).2.1, (H op hop).2.2.1, (H op hop).2.2.2,
+        c03_fuelbound_suffices S d op raw w hac (selectOp_mem d opName op hop) fuel hf _ _⟩)
+
+/-- the acyclicity hypothesis is satisfiable in a non-trivial way: `Ex.doc1` spreads `F` (which spreads nothing) -/
+example : AGV.Lemmas.ExecStaticMerge.FragsAcyclic AGV.Lemmas.ExecStaticData.Ex.doc1 :=
+  ⟨fun _ => 0, by decide⟩
 
 end AGV.Props.C03
